@@ -318,4 +318,49 @@ Section Inv.
 
   Lemma inv13_init cap : inv13 (init cap).
   Proof. repeat split; try reflexivity; intros; try contradiction; discriminate. Qed.
+  (* ------------------------------------------------------------------ C15: discarded, not written *)
+  Lemma item_eq_dec : forall a b : item, {a = b} + {a <> b}.
+  Proof.
+    decide equality; try apply Nat.eq_dec.
+    apply (list_eq_dec N.eq_dec).
+  Qed.
+
+  Notation cnt := (count_occ item_eq_dec).
+
+  (* every item ever enqueued is in exactly one place: taken by the sender, removed by the drain, or
+     still queued (as multisets) *)
+  Definition inv15 (s : cstate) : Prop :=
+    forall x, cnt (g_enq s) x = (cnt (g_deq s) x + cnt (g_drained s) x + cnt (q s) x)%nat.
+
+  Lemma inv15_step s a s' : inv15 s -> step s a = Some s' -> inv15 s'.
+  Proof.
+    unfold inv15. intros IH H x. specialize (IH x).
+    destruct a; crush_step H; try exact IH;
+      repeat match goal with Hq : q s = _ |- _ => rewrite Hq in IH end;
+      rewrite ?count_occ_app; cbn [count_occ] in *;
+      repeat match goal with |- context [item_eq_dec ?a ?b] => destruct (item_eq_dec a b) end;
+      repeat match goal with Hc : context [item_eq_dec ?a ?b] |- _ => destruct (item_eq_dec a b) end;
+      try lia; try congruence.
+  Qed.
+
+  Lemma cnt_filter_le (P : item -> bool) l x : (cnt (filter P l) x <= cnt l x)%nat.
+  Proof.
+    induction l as [|a r IH]; cbn; [lia|].
+    destruct (P a); cbn; destruct (item_eq_dec a x); lia.
+  Qed.
+
+  (* a command that was removed by the drain is not also written: for every item x,
+     #written(x) + #drained(x) <= #submitted(x) *)
+  Theorem drained_not_written cap l s x :
+    run (init cap) l = Some s ->
+    (cnt (map snd (g_wire s)) x + cnt (g_drained s) x <= cnt (g_enq s) x)%nat.
+  Proof.
+    intro H.
+    assert (I15 : inv15 s).
+    { refine (run_invariant inv15 inv15_step l (init cap) s _ H). intro y. reflexivity. }
+    destruct (exactly_once_all_schedules cap l s H) as [rest [E _]].
+    specialize (I15 x).
+    pose proof (cnt_filter_le (fun i => negb (is_exit i)) (g_deq s) x) as F.
+    fold (nonexit (g_deq s)) in F. rewrite E, !count_occ_app in F. lia.
+  Qed.
 End Inv.
